@@ -8,10 +8,10 @@ package neutrino
 // message is an explorer choice.
 
 import (
-	"runtime"
 	"bytes"
 	"fmt"
 	"os"
+	"runtime"
 	"sort"
 	"strings"
 	"testing"
